@@ -72,7 +72,9 @@ fn objkey(k: &MKey) -> MapKeyObjToObj {
 }
 
 #[derive(Clone, Debug, Serialize, Deserialize, PartialEq, Eq, Hash)]
-pub enum RawOp { GetV, GetS, GetMutPush(u8), SetV(Vec<u8>), SetS(String), GetBoxed, SetBoxedV(Vec<u8>), DefaultV, DefaultMutPush(u8), DefaultS }
+pub enum RawOp { GetV, GetS, GetMutPush(u8), SetV(Vec<u8>), SetS(String), GetBoxed, SetBoxedV(Vec<u8>), DefaultV, DefaultMutPush(u8), DefaultS,
+  /// `*state.get_boxed_mut().unwrap() = Box::new(..)`: the box is replaced in place by a value of possibly another type.
+  ReplaceBoxedV(Vec<u8>), ReplaceBoxedS(String) }
 
 #[derive(Clone, Debug, Serialize, Deserialize, PartialEq, Eq, Hash)]
 pub enum MOp {
@@ -264,6 +266,12 @@ fn raw_op<R: Resource>(sut: &mut Sut, m: &mut Model, slot: usize, op: &RawOp, st
       if st.get_boxed_mut().is_some() != want { return Err(fail(step, mop, "get_boxed_mut disagrees with get_boxed".to_string())); }
     }
     RawOp::SetBoxedV(v) => { st.set_boxed(Box::new(v.clone())); m.clobber(slot, Slot::V(v.clone())); }
+    RawOp::ReplaceBoxedV(v) => {
+      if let Some(b) = st.get_boxed_mut() { *b = Box::new(v.clone()); m.clobber(slot, Slot::V(v.clone())); } else if cur != Slot::Unset { return Err(fail(step, mop, "get_boxed_mut() is None although state was set".to_string())); }
+    }
+    RawOp::ReplaceBoxedS(x) => {
+      if let Some(b) = st.get_boxed_mut() { *b = Box::new(x.clone()); m.clobber(slot, Slot::S(x.clone())); } else if cur != Slot::Unset { return Err(fail(step, mop, "get_boxed_mut() is None although state was set".to_string())); }
+    }
     RawOp::DefaultV => {
       let got = st.get_or_set_default::<Vec<u8>>().clone();
       let want = if let Slot::V(v) = &cur { v.clone() } else { vec![] };
@@ -488,6 +496,7 @@ fn rawop() -> impl Strategy<Value=RawOp> {
     Just(RawOp::GetV), Just(RawOp::GetS), (0u8..4).prop_map(RawOp::GetMutPush), proptest::collection::vec(0u8..4, 0..3).prop_map(RawOp::SetV),
     (0u8..3).prop_map(|b| RawOp::SetS(((b'a' + b) as char).to_string())), Just(RawOp::GetBoxed), proptest::collection::vec(0u8..4, 0..3).prop_map(RawOp::SetBoxedV),
     Just(RawOp::DefaultV), (0u8..4).prop_map(RawOp::DefaultMutPush), Just(RawOp::DefaultS),
+    proptest::collection::vec(0u8..4, 0..3).prop_map(RawOp::ReplaceBoxedV), (0u8..3).prop_map(|b| RawOp::ReplaceBoxedS(((b'a' + b) as char).to_string())),
   ]
 }
 fn simple_op(k: MKey) -> impl Strategy<Value=MOp> {
@@ -514,7 +523,7 @@ pub fn replay(path: &Path) -> Result<CheckResult, String> {
 }
 
 pub fn run(tier: Tier, seed: u64) -> i32 {
-  let rule = "proptest-generated operation sequences over four key types with identical raw keys (K1(u8), K2(u8), MapKeyToObj<u8>, MapKeyObjToObj over K1/K2/u8 the zero-sized key types Z1/Z2/() and the wrappers Box<K1>/Box<u8>/Box<Z1>) and two value types: insert / entry().or_insert / entry().and_modify / remove through MapWriter (Resource::write), direct edits through Pie::resource_state_mut().get_global_map_mut(), reads through Resource::read, stamps through all three routes of MapEqualsChecker followed by a change and a check, a copy task through Context::read/Context::write under a real Pie, a short sequence over two resource types that share their type_name (same-named structs in sibling blocks), and raw typed state calls (get, get_mut, set, get_boxed, set_boxed, get_or_set_default(_mut)) with matching and non-matching state types on four resource types; oracle: reference BTreeMap per (key type, key) and a slot model per resource type, every map and every slot compared after every operation; non-trivial = sequence touching >=2 key types with equal raw keys and containing a read after a writer-write after a direct edit; distinct by case hash";
+  let rule = "proptest-generated operation sequences over four key types with identical raw keys (K1(u8), K2(u8), MapKeyToObj<u8>, MapKeyObjToObj over K1/K2/u8 the zero-sized key types Z1/Z2/() and the wrappers Box<K1>/Box<u8>/Box<Z1>) and two value types: insert / entry().or_insert / entry().and_modify / remove through MapWriter (Resource::write), direct edits through Pie::resource_state_mut().get_global_map_mut(), reads through Resource::read, stamps through all three routes of MapEqualsChecker followed by a change and a check, a copy task through Context::read/Context::write under a real Pie, a short sequence over two resource types that share their type_name (same-named structs in sibling blocks), and raw typed state calls (get, get_mut, set, get_boxed, set_boxed, replacement of the box through get_boxed_mut, get_or_set_default(_mut)) with matching and non-matching state types on four resource types; oracle: reference BTreeMap per (key type, key) and a slot model per resource type, every map and every slot compared after every operation; non-trivial = sequence touching >=2 key types with equal raw keys and containing a read after a writer-write after a direct edit; distinct by case hash";
   let mut report = Report::new("C14", tier, seed, "exploration", rule);
   let known = Known::load("C14");
   super::prologue(&mut report, &known);
